@@ -113,7 +113,72 @@ def always_exits(stmts):
     return False
 
 
+def _flag_def(name_node):
+    """The defining expression of a local boolean flag: the local is stored exactly once in its function, by a plain
+    assignment that precedes the use, and its value is a test (comparison, boolean operator, call, attribute).  The
+    node returned is the definition's own expression (so lock regions etc. are those of the point of evaluation)."""
+    fn = None
+    for a in ancestors(name_node):
+        if isinstance(a, (ast.FunctionDef, ast.AsyncFunctionDef)):
+            fn = a
+            break
+    if fn is None or name_node.id in {x.arg for x in ast.walk(fn.args) if isinstance(x, ast.arg)}:
+        return None
+    stores = [n for n in own_nodes(fn) if isinstance(n, ast.Name) and n.id == name_node.id and not isinstance(n.ctx, ast.Load)]
+    if len(stores) != 1:
+        return None
+    st = getattr(stores[0], '_parent', None)
+    if not (isinstance(st, ast.Assign) and len(st.targets) == 1 and st.targets[0] is stores[0]):
+        return None
+    if getattr(st, '_pos', 0) > getattr(name_node, '_pos', 0) or in_loop(st) is not in_loop(name_node):
+        return None
+    v = st.value
+    if isinstance(v, (ast.Compare, ast.BoolOp)) or (isinstance(v, ast.UnaryOp) and isinstance(v.op, ast.Not)):
+        return v
+    if isinstance(v, (ast.Call, ast.Attribute)):
+        # a call / attribute result is a flag only if the local is used for nothing but tests
+        def in_test(n):
+            child = n
+            for a in ancestors(n):
+                if isinstance(a, (ast.If, ast.While, ast.IfExp)) and a.test is child:
+                    return True
+                if not isinstance(a, (ast.BoolOp, ast.UnaryOp)):
+                    return False
+                child = a
+            return False
+        loads = [n for n in own_nodes(fn) if isinstance(n, ast.Name) and n.id == name_node.id and isinstance(n.ctx, ast.Load)]
+        if loads and all(in_test(n) for n in loads):
+            return v
+    return None
+
+
+def _deflag(test, depth=0):
+    """replace local boolean flags in a test by their definitions (through not / and / or)"""
+    if depth > 4:
+        return test
+    if isinstance(test, ast.Name):
+        d = _flag_def(test)
+        return _deflag(d, depth + 1) if d is not None else test
+    if isinstance(test, ast.UnaryOp) and isinstance(test.op, ast.Not):
+        o = _deflag(test.operand, depth + 1)
+        if o is not test.operand:
+            n = ast.UnaryOp(op=ast.Not(), operand=o)
+            ast.copy_location(n, test)
+            n._parent = getattr(test, '_parent', None)
+            return n
+        return test
+    if isinstance(test, ast.BoolOp):
+        vals = [_deflag(v, depth + 1) for v in test.values]
+        if any(a is not b for a, b in zip(vals, test.values)):
+            n = ast.BoolOp(op=test.op, values=vals)
+            ast.copy_location(n, test)
+            n._parent = getattr(test, '_parent', None)
+            return n
+    return test
+
+
 def _norm_guard(test, pol):
+    test = _deflag(test)
     while isinstance(test, ast.UnaryOp) and isinstance(test.op, ast.Not):
         test, pol = test.operand, not pol
     return test, pol
